@@ -363,6 +363,9 @@ func handleViolation(t *testing.T, p *core.Prop, job *Job, exec func(simrt.Confi
 			budget = 0
 		}
 		deadline := time.Now().Add(60 * time.Second)
+		if v, err := strconv.Atoi(os.Getenv("VERIF_SHRINK_S")); err == nil && v >= 0 {
+			deadline = time.Now().Add(time.Duration(v) * time.Second) // sensitivity runs do not need minimal replays
+		}
 		tries := 0
 		try := func(g, s []uint32) bool {
 			if tries >= budget || time.Now().After(deadline) {
